@@ -227,6 +227,9 @@ def shapes():
         ("quadbasis", quadbasis, (1.1, 0.3), [None], True),
         # bounds that exclude the default start value 1 of a parameter without default (D64)
         ("linneg2", linneg2, (5.0, -0.3), [[(None, None), (None, 0)], [(2, 10), (None, None)], [(None, None), (-1, -0.1)]], True),
+        # ACTIVE bounds that are exactly zero (a falsy bound is still a bound): the generating slope lies beyond them
+        ("linzero2", linneg2, (2.0, 0.4), [[(None, None), (None, 0)], [(None, None), (None, 0.0)], [(0, None), (None, 0)]], True),
+        ("linzero2neg", linneg2, (5.0, -0.3), [[(None, None), (0, None)], [(None, 0), (0.0, None)]], True),
         # residual of about 1e5..1e6 at the start parameters (1, 1, 1): scale dependence of SLSQP (D41)
         ("poly3wide", poly3, (1.0, 0.5, 0.05), [[(0, None)] * 3, [(0, None), (0, None), (None, None)]], True),
     ]
